@@ -33,7 +33,7 @@ func (r *rng) n(k int) int { return int(r.next()>>11) % k }
 var Contents = []string{"flat", "c2", "c3", "c4", "c5", "c16", "c17", "c256", "many", "gradient", "noise"}
 
 // Alpha classes.
-var Alphas = []string{"opaque", "binary", "few", "agradient", "transparent", "anoise"}
+var Alphas = []string{"opaque", "binary", "few", "agradient", "transparent", "anoise", "late", "lastpx"}
 
 var palette = func() []color.NRGBA {
 	r := newRng(7, "palette")
@@ -148,6 +148,14 @@ func Make(w, h int, content, alpha string, seed int64) *image.NRGBA {
 				c.A = 0
 			case "anoise":
 				c.A = uint8(r.n(256))
+			case "late": // opaque except a patch in the last rows: the first non-opaque pixel comes late in raster order
+				if y >= h-(h+3)/4 && x >= w/2 {
+					c.A = uint8(40 + 17*((x+y)%11))
+				}
+			case "lastpx": // only the very last pixel is not opaque
+				if y == h-1 && x == w-1 {
+					c.A = 0
+				}
 			case "semi": // never 0, never 255
 				c.A = uint8(1 + r.n(254))
 			}
